@@ -109,4 +109,10 @@ def advanceSequence (t : Tracker) (seq : Nat) : Tracker :=
     { t with seq := seq, buf := keep,
              total := dropped.foldl (fun tot p => sub32 tot (wrap32 p.2.length)) t.total }
 
+/-- keys of the map, in list order -/
+def keys (m : Chunks) : List Nat := m.map (·.1)
+
+/-- the bytes actually held by the map -/
+def sumSizes (m : Chunks) : Nat := (m.map (fun c => c.2.length)).sum
+
 end Tins.DT
